@@ -269,7 +269,7 @@ def tree_id():
 
 
 def write_replay(pid: str, signature: str, detail: dict) -> str:
-    d = os.path.join(VERIF, "replays", pid)
+    d = os.path.join(os.environ.get("VERIF_REPLAY_DIR") or os.path.join(VERIF, "replays"), pid)
     os.makedirs(d, exist_ok=True)
     blob = json.dumps({"property": pid, "signature": signature, "detail": detail}, sort_keys=True, default=repr, indent=1)
     h = hashlib.sha1((signature + blob).encode()).hexdigest()[:12]
@@ -334,8 +334,11 @@ def finish(ctx: Ctx) -> int:
         "wall_s": round(time.time() - ctx.t0, 3),
         "violations": nreal,
     }
-    os.makedirs(os.path.join(VERIF, "evidence"), exist_ok=True)
-    path = os.path.join(VERIF, "evidence", f"{ctx.pid}.json")
+    # VERIF_EVIDENCE_DIR: used only by tools/try_patch.sh so that runs against a mutated scratch
+    # tree do not overwrite the evidence of the real tree
+    evdir = os.environ.get("VERIF_EVIDENCE_DIR") or os.path.join(VERIF, "evidence")
+    os.makedirs(evdir, exist_ok=True)
+    path = os.path.join(evdir, f"{ctx.pid}.json")
     tmp = path + ".tmp"
     with open(tmp, "w") as f:
         json.dump(ev, f, indent=1, sort_keys=True, default=repr)
